@@ -20,7 +20,7 @@ NOT_APPLICABLE = {}
 HOOK_COMMITS = []
 
 PROPS["C03"] = {
-    "bounds": "names 0..4 ASCII bytes in the quick tier and 0..6 in the thorough tier, literal options 0..1 symbolic bytes, regex/notRegex from an enumerated family of 40 concrete patterns (obligations.py), each as regex and as notRegex; aggregation path and cache: names 0..4 / 1..2 bytes",
+    "bounds": "names 0..4 ASCII bytes in the quick tier and 0..6 in the thorough tier, literal options 0..1 symbolic bytes, regex/notRegex from an enumerated family of 40 concrete patterns (obligations.py), each as regex and as notRegex; aggregation path and cache: names 0..4 / 1..2 bytes; a route / destination filter with all six options set, up to two of them cleared or replaced at runtime (modRoute / modDest), names 1..3 bytes",
     "outside": "non-ASCII names under regex filters; patterns outside the family",
     "assumptions": ["input bytes < 0x80 when a regex is configured", "regexp.Match modelled as bounded NFA unrolling of the real syntax.Prog"],
     "groups": [
@@ -35,7 +35,9 @@ PROPS["C03"] = {
 }
 
 PROPS["C03"]["groups"] += [
-    {"pkg": "route", "hdir": "route", "specs": [spec("C03/dest/name-only", "VerifC03DestName")]},
+    {"pkg": "route", "hdir": "route", "specs": [spec("C03/dest/name-only", "VerifC03DestName"),
+                                                 spec("C03/updated-filter/route", "VerifC03UpdatedFilter", {"where": "route"}),
+                                                 spec("C03/updated-filter/dest", "VerifC03UpdatedFilter", {"where": "dest"})]},
     {"pkg": "table", "hdir": "table", "specs": [spec("C03/aggroute/name-only", "VerifC03AggRouteName"), spec("C03/table/name-only", "VerifC03TableName"), spec("C03/table/dest-filter/name-only", "VerifC03TableDestName")]},
 ]
 
@@ -57,11 +59,11 @@ PROPS["C03"]["groups"] += [
 ]
 
 PROPS["C18"] = {
-    "bounds": "tables with 1..3 entries per list (routes, blacklist, rewriters, aggregations), histories of 1..2 admin operations with free index/key (incl. unknown key, index beyond the end); routes with 1..3 destinations; a consistent-hashing route with 2 destinations (real ring, 100 replicas), 1..2 changes, held ring compared entry by entry; one destination change carrying any subset of {addr, prefix, sub, regex}; concurrent runs: one dispatcher against an admin goroutine making two changes (add rewriter / blacklist entry, delete route), and two admin goroutines making one change each (4x4 operation pairs), every interleaving with at most 2 (thorough 4) preemptions at lock / atomic / channel operations",
+    "bounds": "tables with 1..3 entries per list (routes, blacklist, rewriters, aggregations), histories of 1..2 admin operations with free index/key (incl. unknown key, index beyond the end); routes with 1..3 destinations; a consistent-hashing route with 2 destinations (real ring, 100 replicas), 1..2 changes, held ring compared entry by entry; one destination change carrying any subset of {addr, prefix, sub, regex}; delDest / modDest / modRoute addressed through the table by route key (two real routes with two destinations each; key incl. unknown, index incl. beyond the end); concurrent runs: one dispatcher against an admin goroutine making two changes (add rewriter / blacklist entry, delete route), and two admin goroutines making one change each (4x4 operation pairs), every interleaving with at most 2 (thorough 4) preemptions at lock / atomic / channel operations",
     "outside": "interleavings beyond the preemption bound or at plain memory accesses, and memory-model effects: beyond the bound the property is reduced to snapshot immutability + single snapshot load per dispatch + model-list equality (DESIGN.md C18)",
     "assumptions": ["copy-on-write reduction: if a published snapshot is never modified and each dispatch loads exactly one snapshot, any interleaving equals the change happening before or after the dispatch"],
     "groups": [
-        {"pkg": "table", "hdir": "table", "specs": [spec("C18/table", "VerifC18Table"), spec("C18/readers", "VerifC18Readers"), spec("C18/table/n<=4,ops<=2", "VerifC18Table", {"maxn": "4"}, tier="thorough"), spec("C18/table/n<=2,ops<=3", "VerifC18Table", {"maxn": "2", "maxops": "3"}, tier="thorough")]},
+        {"pkg": "table", "hdir": "table", "specs": [spec("C18/table", "VerifC18Table"), spec("C18/readers", "VerifC18Readers"), spec("C18/table/route-ops-by-key", "VerifC18TableRouteOps"), spec("C18/table/n<=4,ops<=2", "VerifC18Table", {"maxn": "4"}, tier="thorough"), spec("C18/table/n<=2,ops<=3", "VerifC18Table", {"maxn": "2", "maxops": "3"}, tier="thorough")]},
         {"pkg": "route", "hdir": "route", "specs": [spec("C18/route", "VerifC18Route"), spec("C18/hash-route", "VerifC18HashRoute")]},
         {"pkg": "destination", "hdir": "destination", "specs": [spec("C18/destination-update/all-option-subsets", "VerifC18DestUpdate")]},
         # interleavings as decision variables (bounded preemption at lock / atomic / channel operations)
@@ -76,12 +78,13 @@ PROPS["C18"] = {
 }
 
 PROPS["C02"] = {
-    "bounds": "arbitrary ASCII byte strings of 0..5 bytes as the line (quick) and arbitrary bytes (all 256 values) of 0..3 bytes (thorough) x all 3x2 configured validation levels; level names: all spellings of up to 3 bytes plus the documented ones",
+    "bounds": "arbitrary ASCII byte strings of 0..5 bytes as the line (quick) and arbitrary bytes (all 256 values) of 0..3 bytes (thorough) x all 3x2 configured validation levels; level names: all spellings of up to 3 bytes plus the documented ones; the same gate with a blacklist entry that matches every name (lines of 0..4 ASCII bytes)",
     "outside": "numeric spellings accepted by strconv.ParseFloat (modelled: digit strings exactly, everything else an uninterpreted validity predicate); TOML decoding of the level strings; lines longer than the bound",
     "assumptions": ["oracle for 'passes validation' is carbon20.ValidatePacket called by the harness with the levels the harness configured (the gate must use exactly the configured levels)", "strconv.ParseFloat: exact on 1..15 digit strings, uninterpreted otherwise"],
     "groups": [
         {"pkg": "table", "hdir": "table", "specs": [
             spec("C02/gate/ascii<=5", "VerifC02Gate", {"ascii": "1", "maxlen": "xxxxx"}),
+            spec("C02/gate/behind-a-blacklist/ascii<=4", "VerifC02Gate", {"ascii": "1", "maxlen": "xxxx", "blacklist": "1"}),
             spec("C02/gate/bytes<=2", "VerifC02Gate", {"ascii": "0", "maxlen": "xx"}, tier="thorough"),
             spec("C02/gate/ascii<=6", "VerifC02Gate", {"ascii": "1", "maxlen": "xxxxxx"}, tier="thorough"),
             spec("C02/levels", "VerifC02Levels")]},
